@@ -132,6 +132,10 @@ std::string render_stack (zw_stack const *s);
 [[noreturn]] void child_lib (plan const &p, int out_fd);
 
 void apply_environment (plan const &p);
+// memfd created by the worker for the child's stderr, so that the worker can
+// still read it after the child died.
+extern int g_child_errfd;
+
 void init_vocabularies ();
 void prebuild_vocabulary ();
 
